@@ -301,7 +301,7 @@ def replay(pid, path):
     if eng == "kcompose":
         from .main import Result
         res = Result()
-        engine_kcompose.run(pid, "quick", data.get("seed", 0), res, only=[dict(variant="setup", case=rp["case"])] if rp.get("variant") == "setup" else [dict(prog=rp["prog"], ins=rp["ins"], outs=rp["outs"])])
+        engine_kcompose.run(pid, "quick", data.get("seed", 0), res, only=[dict(variant="setup", case=rp["case"])] if rp.get("variant") == "setup" else [dict(prog=rp["prog"], ins=rp["ins"], outs=rp["outs"], **({"pins": rp["pins"]} if "pins" in rp else {}))])
         bad = [h for h in res.hits if h["prop"] == pid]
         if bad:
             print("VIOLATION property=%s replay=%s" % (pid, path))
@@ -441,6 +441,8 @@ for _p in ("C04", "C05", "C07", "C08"):
 
 from . import scenarios  # noqa: E402
 
+REGISTRY["C09"]["engines"] = list(REGISTRY["C09"]["engines"]) + [engine_khist.run]
+REGISTRY["C09"]["rule"] += " || " + HIST_RULE
 for _p in ("C09", "C14", "C17"):
     REGISTRY[_p]["engines"] = list(REGISTRY[_p]["engines"]) + [scenarios.run]
     REGISTRY[_p]["rule"] += " || hand-written multi-call scenarios without the controller (harness/scenarios.py): failing calls that leave nodes running followed by another failing call; a node calling another DAG at run time; the first awaits of an AsyncDAG started together"
